@@ -296,26 +296,12 @@ func (c *consumerGroup) StreamDeleted(stream string, epoch uint64) error {
 	if !ok {
 		return nil
 	}
-	rebalance := make(map[string]struct{})
 	for _, subscriber := range *subscribers {
 		delete(subscriber.streams, stream)
-		subscriber.removeStreamAssignments(stream)
-		for subscribedTo := range subscriber.streams {
-			rebalance[subscribedTo] = struct{}{}
-		}
 	}
 	delete(c.subscribers, stream)
-	// Rebalance assignments for all other streams the affected consumers are
-	// subscribed to. Range over the streams in order for deterministic
-	// processing across servers.
-	rangeStreamsOrdered(rebalance, func(stream string) {
-		// Enforce heap invariants.
-		subscribers, ok := c.subscribers[stream]
-		if ok {
-			heap.Init(subscribers)
-		}
-		c.balanceAssignmentsForStream(stream)
-	})
+	// Rebalance assignments for the remaining streams.
+	c.balanceAssignments()
 	c.epoch = epoch
 	c.debugLogAssignments()
 	return nil
@@ -421,8 +407,8 @@ func (c *consumerGroup) addConsumer(cons *consumer) {
 			c.subscribers[stream] = subscribers
 		}
 		heap.Push(subscribers, cons)
-		c.balanceAssignmentsForStream(stream)
 	})
+	c.balanceAssignments()
 }
 
 // removeConsumer removes the given consumer from the group's subscriber heaps
@@ -445,13 +431,28 @@ func (c *consumerGroup) removeConsumer(cons *consumer) {
 		// never knew: the group's state must only depend on its members.
 		if subscribers.Len() == 0 {
 			delete(c.subscribers, stream)
-			return
 		}
-		// Rebalance the stream if the consumer being removed had assignments
-		// for it.
-		if _, ok := cons.assignments[stream]; ok {
-			c.balanceAssignmentsForStream(stream)
-		}
+	})
+	c.balanceAssignments()
+}
+
+// balanceAssignments recomputes the partition assignments of the whole group
+// from its members and their subscriptions alone, stream by stream in order.
+// The result must not depend on the order in which consumers joined or left:
+// every server has to hand out the same assignments for the same group epoch,
+// including a server that rebuilt the group from a snapshot. This must be
+// called within the group mutex.
+func (c *consumerGroup) balanceAssignments() {
+	for _, member := range c.members {
+		member.assignments = make(partitionAssignments)
+		member.assignedCount = 0
+	}
+	streams := make(map[string]struct{}, len(c.subscribers))
+	for stream := range c.subscribers {
+		streams[stream] = struct{}{}
+	}
+	rangeStreamsOrdered(streams, func(stream string) {
+		c.balanceAssignmentsForStream(stream)
 	})
 }
 
